@@ -301,11 +301,56 @@ def norm_groups(gs):
     return sorted((sorted(g["bats"]), sorted(g["invs"])) for g in gs)
 
 
+def spec_bounds(case, groups):
+    """Documented aggregation, computed independently from the case data with Fractions:
+    per battery set: inclusion = sum of the batteries' inclusion bounds, exclusion = (min lower, max upper) of
+    the batteries x number of batteries (AggregatedBatteryData / _aggregate_battery_power_bounds docs);
+    combined with the inverter side: inclusion (max of lowers, min of uppers), exclusion (min of lowers, max of
+    uppers), inverter side = sums over the set's inverters.  Returns (per-set list, advertised sum | None,
+    enforced per _get_bounds' documented formula | None)."""
+    def entry(c):
+        if c in case["absent"] or str(c) not in case["data"]:
+            return None
+        v = case["data"][str(c)]
+        return None if any(x is None for x in v) else [fr(x) for x in v]
+    per = []
+    for g in groups:
+        bb = [e for e in (entry(b) for b in g["bats"]) if e is not None]
+        ib = [e for e in (entry(i) for i in g["invs"]) if e is not None]
+        if not bb or not ib:
+            continue
+        n = len(bb)
+        agg = [sum(e[0] for e in bb), n * min(e[1] for e in bb), n * max(e[2] for e in bb), sum(e[3] for e in bb)]
+        inv = [sum(e[k] for e in ib) for k in range(4)]
+        per.append({"agg": agg, "inv": inv,
+                    "set": [max(agg[0], inv[0]), min(agg[1], inv[1]), max(agg[2], inv[2]), min(agg[3], inv[3])]})
+    if not per:
+        return per, None, None
+    adv = [sum(x["set"][k] for x in per) for k in range(4)]
+    enf = [adv[0], min(sum(x["agg"][1] for x in per), sum(x["inv"][1] for x in per)),
+           max(sum(x["agg"][2] for x in per), sum(x["inv"][2] for x in per)), adv[3]]
+    return per, adv, enf
+
+
 def oracle_c17(case, obs):
     out = []
     hit = lambda w: out.append({"what": w, "finding": None})
     if obs.get("float"):
         hit(f"float: the float run deviates from the exact run: {obs['float'][:3]}")
+    # the advertised (and enforced) bounds are the documented aggregates of the component data
+    _, sadv, _ = spec_bounds(case, obs["calc_groups"])
+    gadv = None if obs["adv"] is None else [fr(v) for v in obs["adv"]]
+    if gadv != sadv:
+        names = ("inclusion lower", "exclusion lower", "exclusion upper", "inclusion upper")
+        diff = "bounds present / absent" if gadv is None or sadv is None else ", ".join(
+            f"{n} {a} (documented {b})" for n, a, b in zip(names, gadv, sadv) if a != b)
+        hit(f"spec: the advertised bounds differ from the documented aggregation of the battery sets {norm_groups(obs['calc_groups'])}: {diff}")
+    if obs.get("enf") is not None and "mgr_groups" in obs:
+        _, _, senf = spec_bounds(case, obs["mgr_groups"])
+        genf = [fr(v) for v in obs["enf"]]
+        if genf != senf:
+            hit(f"spec: the enforced bounds {[str(v) for v in genf]} differ from the documented aggregation "
+                f"{None if senf is None else [str(v) for v in senf]} of the battery sets {norm_groups(obs['mgr_groups'])}")
     if "enf" not in obs or obs.get("enf") is None:
         return out
     enf = [fr(v) for v in obs["enf"]]
@@ -426,12 +471,14 @@ def gen_case(rng):
     grid = [F(5, 8), F(37, 4), F(123, 2), F(1001, 16)] if dy else [F(7, 3), F(10, 7), F(1000, 3), F(22, 9)]
     bats, edges, nxt = [], [], 1
     ngroups = rng.choice([1, 1, 2, 2, 3, 4])
+    made = []
     for _ in range(ngroups):
         nb, ni = rng.choice([1, 1, 1, 2, 3]), rng.choice([1, 1, 2, 3])
         bs = list(range(nxt, nxt + nb)); nxt += nb
         is_ = list(range(nxt, nxt + ni)); nxt += ni
         bats += bs
         edges += [[i, b] for i in is_ for b in bs]
+        made.append((bs, is_))
     extra = []
     r = rng.random()
     if r < 0.08 and len(bats) >= 2:
@@ -445,6 +492,22 @@ def gen_case(rng):
     rng.shuffle(bats)
     comps = set(bats) | {i for i, _ in edges}
     data = {str(c): gen_bounds(rng, grid) for c in sorted(comps)}
+    # family: shared-inverter sets whose batteries have exclusion zones NOT symmetric around zero, the largest
+    # upper and the most negative lower bound on different batteries, the battery aggregate dominating the inverters
+    for bs, is_ in made:
+        if len(bs) >= 2 and rng.random() < 0.45:
+            ups = rng.sample([F(10), F(50), F(200), F(75, 2) if not dy else F(75, 2), F(120)], len(bs))
+            lows = rng.sample([F(10), F(50), F(200), F(30), F(90)], len(bs))
+            hi_b = max(range(len(bs)), key=lambda k: ups[k])
+            if max(range(len(bs)), key=lambda k: lows[k]) == hi_b:      # put the deepest lower bound elsewhere
+                j = (hi_b + 1) % len(bs)
+                lows[hi_b], lows[j] = min(lows), max(lows)
+            for k, b in enumerate(bs):
+                w = rng.choice([F(100), F(500), F(2000)])
+                data[str(b)] = [enc(-lows[k] - w), enc(-lows[k]), enc(ups[k]), enc(ups[k] + w)]
+            for i in is_:
+                e = rng.choice([F(0), F(5), F(10)])
+                data[str(i)] = [enc(F(-5000)), enc(-e), enc(e), enc(F(5000))]
     absent = []
     if rng.random() < 0.25:  # incomplete data: calculator-only correspondence
         for c in sorted(comps):
@@ -472,6 +535,11 @@ def boundary_cases():
     out.append({"bats": [1, 2], "edges": [[3, 1], [3, 2], [4, 1], [4, 2]], "extra_pred": [],
                 "data": {"1": E(-500, -10, 10, 500), "2": E(-700, -40, 30, 600), "3": E(-400, -5, 5, 450), "4": E(-800, -25, 20, 900)},
                 "absent": [], "working": [1], "deltas": [[1, 1000], [1, 1]]})
+    # shared inverter, asymmetric battery exclusion zones (-50..200 and -200..50) + a plain pair
+    out.append({"bats": [1, 2, 4], "edges": [[3, 1], [3, 2], [5, 4]], "extra_pred": [],
+                "data": {"1": E(-1000, -50, 200, 1000), "2": E(-1000, -200, 50, 1000), "3": E(-3000, 0, 0, 3000),
+                         "4": E(-1000, -50, 50, 1000), "5": E(-1000, -10, 10, 1000)},
+                "absent": [], "working": [1, 2, 4], "deltas": [[1, 1000], [1, 1]]})
     # nothing working / no data
     out.append({"bats": [1], "edges": [[2, 1]], "extra_pred": [], "data": {"1": E(-10, 0, 0, 10), "2": E(-10, 0, 0, 10)},
                 "absent": [], "working": [], "deltas": [[1, 1]]})
@@ -495,6 +563,9 @@ def shrink_case(case):
         edges = [e for e in case["edges"] if e[0] != i]
         if edges:
             yield {**case, "edges": edges}
+    used = {str(c) for c in set(case["bats"]) | set(inverters_of(case))}
+    if set(case["data"]) - used:
+        yield {**case, "data": {k: v for k, v in case["data"].items() if k in used}}
     if case.get("extra_pred"):
         yield {**case, "extra_pred": []}
     if case["absent"]:
@@ -566,6 +637,16 @@ class PoolBoundsStream(Stream):
             out.append("dyadic_data(float exact)")
         if not wf_inverters(case):
             out.append("inverter_exclusion_not_straddling_zero")
+        per, _, _ = spec_bounds(case, obs["calc_groups"])
+        for g in obs["calc_groups"]:
+            vs = [case["data"][str(b)] for b in g["bats"] if str(b) in case["data"] and all(x is not None for x in case["data"][str(b)])]
+            if len(vs) >= 2:
+                hi_b = max(range(len(vs)), key=lambda k: fr(vs[k][2]))
+                lo_b = min(range(len(vs)), key=lambda k: fr(vs[k][1]))
+                if fr(vs[hi_b][1]) != fr(vs[lo_b][1]) and fr(vs[lo_b][2]) != fr(vs[hi_b][2]):
+                    out.append("set_with_max_upper_and_min_lower_exclusion_on_different_batteries")
+        if any(x["agg"][1] < x["inv"][1] or x["agg"][2] > x["inv"][2] for x in per):
+            out.append("battery_aggregate_dominates_inverter_exclusion")
         nb = {}
         for i, b in case["edges"]:
             nb.setdefault(i, set()).add(b)
@@ -977,6 +1058,14 @@ class BoundsStreamStream(Stream):
             if not cp["requested"]:
                 continue
             where = f"after step {i} ({case['script'][i]})"
+            _, sadv, senf = spec_bounds({"absent": [], "data": snap["data"]}, [{"bats": g[0], "invs": g[1]} for g in snap["groups"]])
+            gadv = None if cp.get("adv") is None else [fr(v) for v in cp["adv"]]
+            if gadv != sadv:
+                hit(f"spec: {where} the latest streamed bounds {None if gadv is None else [str(v) for v in gadv]} differ from the "
+                    f"documented aggregation {None if sadv is None else [str(v) for v in sadv]} of the latest data of the working sets {snap['groups']}")
+            if cp.get("enf") is not None and [fr(v) for v in cp["enf"]] != senf:
+                hit(f"spec: {where} the enforced bounds {[str(fr(v)) for v in cp['enf']]} differ from the documented aggregation "
+                    f"{None if senf is None else [str(v) for v in senf]} of the working sets {snap['groups']}")
             if cp.get("enf") is None:
                 if cp.get("adv") is not None and not snap["groups"]:
                     hit(f"stream: {where} no battery works but the pool still streams bounds {[str(fr(v)) for v in cp['adv']]}")
